@@ -173,7 +173,8 @@ fn c13_case(ctx: &mut Ctx, rng: &mut Rng, i: u64) {
             b: rng.below(256) as u8,
             nerr: if early { 0 } else { rng.below(6) },
             linger: if j + 1 < n && rng.chance(250) { rng.range(50, 150) } else { 0 },
-            code: rng.below(4) as u32 * if rng.chance(500) { 0 } else { 1 },
+            // (codes above 127 look like "killed by a signal" to shells: they are plain exit codes all the same)
+            code: if rng.chance(500) { 0 } else { *rng.pick(&[1u32, 2, 3, 13, 126, 127, 128, 129, 137, 141, 200, 255]) },
             take: if j == early_at { rng.range(1, 5000) } else { 0 },
             close_err: rng.chance(500),
         })
@@ -274,6 +275,20 @@ fn c13_case(ctx: &mut Ctx, rng: &mut Rng, i: u64) {
     } else {
         None
     };
+    // the calling thread may have SIGPIPE (and more) blocked - it takes its signals with sigwait / signalfd: that is the
+    // caller's business, a command whose reader has gone is ended by SIGPIPE all the same
+    let caller_blocks_sigpipe = rng.chance(330);
+    let mut old_mask: libc::sigset_t = unsafe { std::mem::zeroed() };
+    if caller_blocks_sigpipe {
+        unsafe {
+            let mut set: libc::sigset_t = std::mem::zeroed();
+            libc::sigemptyset(&mut set);
+            libc::sigaddset(&mut set, libc::SIGPIPE);
+            libc::sigaddset(&mut set, libc::SIGUSR1);
+            libc::pthread_sigmask(libc::SIG_BLOCK, &set, &mut old_mask);
+        }
+        ctx.count("pipelines_run_from_a_thread_with_SIGPIPE_blocked", 1);
+    }
     let mut got_out: Option<Vec<u8>> = None;
     let mut got_err: Option<Vec<u8>> = None;
     let mut status: Option<ExitStatus> = None;
@@ -347,6 +362,9 @@ fn c13_case(ctx: &mut Ctx, rng: &mut Rng, i: u64) {
         }
         Ok(())
     });
+    if caller_blocks_sigpipe {
+        unsafe { libc::pthread_sigmask(libc::SIG_SETMASK, &old_mask, std::ptr::null_mut()) };
+    }
     drop(holes);
     let evs = m.events();
     let pids = spawn::forked_pids(&evs);
@@ -391,6 +409,27 @@ fn c13_case(ctx: &mut Ctx, rng: &mut Rng, i: u64) {
         ctx.count("commands_audited_for_foreign_pipe_ends", n as i64);
         if !foreign.is_empty() {
             ctx.violation("C13/command-holds-another-pipe-of-the-pipeline", "a command of the pipeline holds, besides its own three streams, a descriptor of a pipe the library created for the pipeline", w(J::arr_s(&foreign)));
+        }
+    }
+    // a command whose reader has gone is ended by SIGPIPE; one that lives on to see the write fail with EPIPE runs with
+    // the signal blocked or ignored (it would go on producing for ever if it ignored errors)
+    {
+        let mut saw_epipe = vec![];
+        for j in 0..n {
+            for l in crate::kid::read_lines(&dir.join(format!("stage{}.rep", j))) {
+                if let Some(rest) = l.strip_prefix("eof ") {
+                    if rest.split(' ').nth(2) == Some(&libc::EPIPE.to_string()) {
+                        saw_epipe.push(format!("command {}: write failed with EPIPE, the command was not ended by SIGPIPE", j));
+                    }
+                }
+            }
+        }
+        if !saw_epipe.is_empty() {
+            ctx.violation(
+                &format!("C13/producer-outlives-its-reader{}", if caller_blocks_sigpipe { "/caller-blocks-SIGPIPE" } else { "" }),
+                "a command kept running after its reader had gone: SIGPIPE did not end it",
+                w(J::arr_s(&saw_epipe)),
+            );
         }
     }
     ctx.count(if early { "pipelines_with_early_exiting_consumer" } else { "pipelines_reading_everything" }, 1);
